@@ -14,6 +14,7 @@ import Bolt.Driver.Node
 import Bolt.Driver.BTree
 import Bolt.Driver.Bkt
 import Bolt.Driver.Surgery
+import Bolt.Driver.Backup
 open Bolt.Driver
 
 def main (args : List String) : IO UInt32 := do
@@ -33,6 +34,8 @@ def main (args : List String) : IO UInt32 := do
   | ["compactmodel", path, os, limit] => cmdCompactModel path (parseNat os) (parseNat limit); return 0
   | ["surgery", cmd, inp, out, os] => cmdSurgery cmd inp out (parseNat os); return 0
   | ["compactcalls", path, os, limit] => cmdCompactCalls path (parseNat os) (parseNat limit); return 0
+  | ["backup", src, out, ps, root, seq, fl, pgid, txid] =>
+    cmdBackup src out (parseNat ps) (parseNat root) (parseNat seq) (parseNat fl) (parseNat pgid) (parseNat txid); return 0
   | ["reencode", path, os] => cmdReencode path (parseNat os); return 0
   | ["checkmodel", path, os, kind] => cmdCheckModel path (parseNat os) kind; return 0
   | ["api-verbose"] => cmdApi true; return 0
